@@ -119,21 +119,26 @@ pub fn make_consensus(cfg: &ChainCfg) -> (Consensus, Vec<TransactionView>) {
     (consensus, funds)
 }
 
+pub static TEMP_BASE: std::sync::OnceLock<PathBuf> = std::sync::OnceLock::new();
+
 pub struct Node {
     pub shared: Shared,
     scope: Option<ChainServiceScope>,
     pub dir: Option<PathBuf>,
+    temp: bool,
 }
 
 impl Node {
-    /// in a temporary DB
+    /// a throw-away node under the harness's scratch directory (SharedBuilder::with_temp_db
+    /// leaves its directory behind in /tmp)
     pub fn temp(consensus: &Consensus) -> Node {
-        let (shared, mut pack) = SharedBuilder::with_temp_db()
-            .consensus(consensus.clone())
-            .build()
-            .expect("build shared");
-        let scope = ChainServiceScope::new(pack.take_chain_services_builder());
-        Node { shared, scope: Some(scope), dir: None }
+        static N: std::sync::atomic::AtomicU64 = std::sync::atomic::AtomicU64::new(0);
+        let base = TEMP_BASE.get().expect("temp base set").clone();
+        let dir = base.join(format!("tmp-{}", N.fetch_add(1, std::sync::atomic::Ordering::SeqCst)));
+        let _ = std::fs::remove_dir_all(&dir);
+        let mut n = Node::on_disk(consensus, &dir, StoreConfig::default());
+        n.temp = true;
+        n
     }
 
     /// on disk (can be re-opened): `dir/db`, optional freezer in `dir/ancient`
@@ -148,7 +153,7 @@ impl Node {
             .build()
             .expect("build shared");
         let scope = ChainServiceScope::new(pack.take_chain_services_builder());
-        Node { shared, scope: Some(scope), dir: Some(dir.to_path_buf()) }
+        Node { shared, scope: Some(scope), dir: Some(dir.to_path_buf()), temp: false }
     }
 
     pub fn chain(&self) -> &ChainController {
@@ -200,6 +205,11 @@ impl Node {
     pub fn stop(mut self) {
         if let Some(scope) = self.scope.take() {
             drop(scope);
+        }
+        if self.temp {
+            if let Some(d) = self.dir.take() {
+                let _ = std::fs::remove_dir_all(d);
+            }
         }
     }
 }
